@@ -167,3 +167,225 @@ Proof.
     rewrite (nth_map2 fp_add M (map2 fp_sub B D) k 0 0 0); [| congruence | reflexivity].
     rewrite (nth_map2 fp_sub B D k 0 0 0) by (congruence || reflexivity). reflexivity.
 Qed.
+
+Definition dot4 (x y : mod_elem) : list Z :=
+  fold_left (fun acc i => re_add acc (negacyclic (nth i x []) (nth i y []))) (seq 0 4) re_zero.
+Definition kem_noise (a b c d : mod_elem) : list Z := re_sub (dot4 b c) (dot4 d a).
+
+Lemma module4_explicit m : module_elem 4 m ->
+  exists x0 x1 x2 x3, m = [x0; x1; x2; x3] /\ ring_elem x0 /\ ring_elem x1 /\ ring_elem x2 /\ ring_elem x3.
+Proof.
+  intros [L F]. destruct m as [|x0 [|x1 [|x2 [|x3 [|? ?]]]]]; cbn [length] in L; try discriminate.
+  inversion F as [|? ? H0 F1]; subst. inversion F1 as [|? ? H1 F2]; subst.
+  inversion F2 as [|? ? H2 F3]; subst. inversion F3 as [|? ? H3 F4]; subst.
+  exists x0, x1, x2, x3. auto.
+Qed.
+
+Lemma len_re_add a b : length a = 64%nat -> length b = 64%nat -> length (re_add a b) = 64%nat.
+Proof. intros Ha Hb. unfold re_add. rewrite length_map2; congruence. Qed.
+Lemma len_re_sub a b : length a = 64%nat -> length b = 64%nat -> length (re_sub a b) = 64%nat.
+Proof. intros Ha Hb. unfold re_sub. rewrite length_map2; congruence. Qed.
+Lemma len_re_had a b : length a = 64%nat -> length b = 64%nat -> length (re_hadamard a b) = 64%nat.
+Proof. intros Ha Hb. unfold re_hadamard. rewrite length_map2; congruence. Qed.
+Lemma len_re_zero : length re_zero = 64%nat.
+Proof. reflexivity. Qed.
+Ltac len64 :=
+  repeat first [ assumption | apply len_re_add | apply len_re_sub | apply len_re_had | exact len_re_zero
+               | (apply ring_elem_length; assumption)
+               | (apply ring_elem_length; apply ring_elem_negacyclic; apply ring_elem_length; assumption) ].
+Lemma intt_had x y :
+  ring_elem x -> ring_elem y -> intt_pure (re_hadamard (ntt_pure x) (ntt_pure y)) = negacyclic x y.
+Proof.
+  intros Hx Hy. rewrite (re_hadamard_ntt x y Hx Hy). apply intt_ntt_pure.
+  apply ring_elem_negacyclic; apply ring_elem_length; assumption.
+Qed.
+
+Section Noise.
+  Variable shake256 : list Z -> Z -> list Z.
+
+  Lemma dsv_wf seed a c : derive_secret_vectors shake256 seed = Some (a, c) -> module_elem 4 a /\ module_elem 4 c.
+  Proof.
+    unfold derive_secret_vectors. intros H.
+    destruct (slice _ 0 _); [|discriminate].
+    destruct (me_sample_short SECRET_VECTOR_N l) as [a'|] eqn:Ea; [|discriminate].
+    destruct (slice _ _ _); [|discriminate].
+    destruct (me_sample_short SECRET_VECTOR_N l0) as [c'|] eqn:Ec; [|discriminate].
+    inversion H; subst. split; [apply (me_sample_short_wf _ _ _ Ea) | apply (me_sample_short_wf _ _ _ Ec)].
+  Qed.
+
+  Lemma dec_payload_noise key seed payload a c b d pk ct :
+    derive_secret_vectors shake256 key = Some (a, c) ->
+    derive_secret_vectors shake256 payload = Some (b, d) ->
+    derive_public_key shake256 key seed = Some pk ->
+    generate_ciphertext_derandomized shake256 pk payload = Some ct ->
+    length payload = 32%nat ->
+    dec_payload shake256 (key, seed) ct = extract_msg (re_add (embed_msg payload) (kem_noise a b c d)).
+  Proof.
+    intros Hac Hbd Hpk Hct Lp.
+    destruct (dsv_wf _ _ _ Hac) as [Wa Wc]. destruct (dsv_wf _ _ _ Hbd) as [Wb Wd].
+    unfold derive_public_key in Hpk. rewrite Hac in Hpk.
+    destruct (derive_public_matrix shake256 seed) as [g|] eqn:Hg; [|discriminate].
+    assert (Wg : module_elem 16 g) by (apply (me_sample_uniform_wf _ _ _ Hg)).
+    rewrite (me_ntt_pure 4 a Wa) in Hpk.
+    change SHAPE_GA with (4, 16, 1, 4, 4, 4)%nat in Hpk.
+    rewrite (me_multiply_hadamard_closed 4 16 1 4 4 4 g (map ntt_pure a)) in Hpk;
+      [| repeat split; reflexivity | apply Wg | rewrite map_length; apply Wa].
+    rewrite (me_ntt_pure 4 c Wc) in Hpk. inversion Hpk; subst pk. clear Hpk.
+    unfold generate_ciphertext_derandomized in Hct. cbn [fst snd] in Hct. rewrite Hbd, Hg in Hct.
+    rewrite (me_ntt_pure 4 b Wb), (me_ntt_pure 4 d Wd) in Hct.
+    change SHAPE_BG with (1, 4, 4, 16, 4, 4)%nat in Hct.
+    rewrite (me_multiply_hadamard_closed 1 4 4 16 4 4 (map ntt_pure b) g) in Hct;
+      [| repeat split; reflexivity | rewrite map_length; apply Wb | apply Wg].
+    change SHAPE_BGA with (1, 4, 1, 4, 4, 1)%nat in Hct.
+    destruct (module4_explicit a Wa) as (a0 & a1 & a2 & a3 & -> & Ra0 & Ra1 & Ra2 & Ra3).
+    destruct (module4_explicit b Wb) as (b0 & b1 & b2 & b3 & -> & Rb0 & Rb1 & Rb2 & Rb3).
+    destruct (module4_explicit c Wc) as (c0 & c1 & c2 & c3 & -> & Rc0 & Rc1 & Rc2 & Rc3).
+    destruct (module4_explicit d Wd) as (d0 & d1 & d2 & d3 & -> & Rd0 & Rd1 & Rd2 & Rd3).
+    assert (RG : forall k, (k < 16)%nat -> ring_elem (nth k g [])) by (intros k Hk; apply (nth_ring_elem 16 g k Wg Hk)).
+    pose proof (RG 0%nat ltac:(lia)) as G0. pose proof (RG 1%nat ltac:(lia)) as G1. pose proof (RG 2%nat ltac:(lia)) as G2.
+    pose proof (RG 3%nat ltac:(lia)) as G3. pose proof (RG 4%nat ltac:(lia)) as G4. pose proof (RG 5%nat ltac:(lia)) as G5.
+    pose proof (RG 6%nat ltac:(lia)) as G6. pose proof (RG 7%nat ltac:(lia)) as G7. pose proof (RG 8%nat ltac:(lia)) as G8.
+    pose proof (RG 9%nat ltac:(lia)) as G9. pose proof (RG 10%nat ltac:(lia)) as G10. pose proof (RG 11%nat ltac:(lia)) as G11.
+    pose proof (RG 12%nat ltac:(lia)) as G12. pose proof (RG 13%nat ltac:(lia)) as G13. pose proof (RG 14%nat ltac:(lia)) as G14.
+    pose proof (RG 15%nat ltac:(lia)) as G15. clear RG.
+    cbn [map] in Hct.
+    unfold mm_closed in Hct.
+    cbn [seq flat_map map fold_left app Nat.mul Nat.add nth me_add map2] in Hct.
+    set (g00 := nth 0 g []) in *. set (g01 := nth 1 g []) in *. set (g02 := nth 2 g []) in *. set (g03 := nth 3 g []) in *.
+    set (g10 := nth 4 g []) in *. set (g11 := nth 5 g []) in *. set (g12 := nth 6 g []) in *. set (g13 := nth 7 g []) in *.
+    set (g20 := nth 8 g []) in *. set (g21 := nth 9 g []) in *. set (g22 := nth 10 g []) in *. set (g23 := nth 11 g []) in *.
+    set (g30 := nth 12 g []) in *. set (g31 := nth 13 g []) in *. set (g32 := nth 14 g []) in *. set (g33 := nth 15 g []) in *.
+    clearbody g00 g01 g02 g03 g10 g11 g12 g13 g20 g21 g22 g23 g30 g31 g32 g33.
+    set (ta0 := ntt_pure a0) in *. set (ta1 := ntt_pure a1) in *. set (ta2 := ntt_pure a2) in *. set (ta3 := ntt_pure a3) in *.
+    set (tb0 := ntt_pure b0) in *. set (tb1 := ntt_pure b1) in *. set (tb2 := ntt_pure b2) in *. set (tb3 := ntt_pure b3) in *.
+    set (tc0 := ntt_pure c0) in *. set (tc1 := ntt_pure c1) in *. set (tc2 := ntt_pure c2) in *. set (tc3 := ntt_pure c3) in *.
+    set (td0 := ntt_pure d0) in *. set (td1 := ntt_pure d1) in *. set (td2 := ntt_pure d2) in *. set (td3 := ntt_pure d3) in *.
+    assert (Rta0 : ring_elem ta0) by (apply ring_elem_ntt_pure; assumption).
+    assert (Rta1 : ring_elem ta1) by (apply ring_elem_ntt_pure; assumption).
+    assert (Rta2 : ring_elem ta2) by (apply ring_elem_ntt_pure; assumption).
+    assert (Rta3 : ring_elem ta3) by (apply ring_elem_ntt_pure; assumption).
+    assert (Rtb0 : ring_elem tb0) by (apply ring_elem_ntt_pure; assumption).
+    assert (Rtb1 : ring_elem tb1) by (apply ring_elem_ntt_pure; assumption).
+    assert (Rtb2 : ring_elem tb2) by (apply ring_elem_ntt_pure; assumption).
+    assert (Rtb3 : ring_elem tb3) by (apply ring_elem_ntt_pure; assumption).
+    assert (Rtc0 : ring_elem tc0) by (apply ring_elem_ntt_pure; assumption).
+    assert (Rtc1 : ring_elem tc1) by (apply ring_elem_ntt_pure; assumption).
+    assert (Rtc2 : ring_elem tc2) by (apply ring_elem_ntt_pure; assumption).
+    assert (Rtc3 : ring_elem tc3) by (apply ring_elem_ntt_pure; assumption).
+    assert (Rtd0 : ring_elem td0) by (apply ring_elem_ntt_pure; assumption).
+    assert (Rtd1 : ring_elem td1) by (apply ring_elem_ntt_pure; assumption).
+    assert (Rtd2 : ring_elem td2) by (apply ring_elem_ntt_pure; assumption).
+    assert (Rtd3 : ring_elem td3) by (apply ring_elem_ntt_pure; assumption).
+    pose proof (ring_elem_embed_msg payload Lp) as Rm.
+    match type of Hct with context [me_multiply_hadamard ?sh ?l ?r] =>
+      rewrite (me_multiply_hadamard_closed 1 4 1 4 4 1 l r) in Hct; [| repeat split; reflexivity | reflexivity | reflexivity] end.
+    unfold mm_closed in Hct.
+    cbn [seq flat_map map fold_left app Nat.mul Nat.add nth] in Hct.
+    rewrite (me_ntt_pure 1 [embed_msg payload]) in Hct by (split; [reflexivity | constructor; [exact Rm | constructor]]).
+    cbn [map me_add map2] in Hct.
+    set (tm := ntt_pure (embed_msg payload)) in *.
+    assert (Rtm : ring_elem tm) by (apply ring_elem_ntt_pure; exact Rm).
+    inversion Hct; subst ct; clear Hct.
+    unfold dec_payload. cbn [fst snd]. rewrite Hac. rewrite (me_ntt_pure 4 [a0; a1; a2; a3] Wa). cbn [map].
+    fold ta0 ta1 ta2 ta3.
+    change SHAPE_DEC with (1, 4, 1, 4, 4, 1)%nat.
+    match goal with |- context [me_multiply_hadamard ?sh ?l ?r] =>
+      rewrite (me_multiply_hadamard_closed 1 4 1 4 4 1 l r); [| repeat split; reflexivity | reflexivity | reflexivity] end.
+    unfold mm_closed.
+    cbn [seq flat_map map fold_left app Nat.mul Nat.add nth me_sub map2].
+    match goal with |- context [me_intt [?t]] => set (X := t) end.
+    assert (LX : length X = 64%nat) by (unfold X; len64).
+    rewrite (me_intt_pure [X]) by (constructor; [exact LX | constructor]).
+    cbn [map nth_error]. f_equal.
+    assert (F : Forall (fun l => length l = 64%nat)
+      [g00; g01; g02; g03; g10; g11; g12; g13; g20; g21; g22; g23; g30; g31; g32; g33;
+       ta0; ta1; ta2; ta3; tb0; tb1; tb2; tb3; tc0; tc1; tc2; tc3; td0; td1; td2; td3; tm]).
+    { repeat (apply Forall_cons; [apply ring_elem_length; assumption|]). apply Forall_nil. }
+    pose proof (kem_identity g00 g01 g02 g03 g10 g11 g12 g13 g20 g21 g22 g23 g30 g31 g32 g33
+                  ta0 ta1 ta2 ta3 tb0 tb1 tb2 tb3 tc0 tc1 tc2 tc3 td0 td1 td2 td3 tm F) as E1.
+    cbv zeta in E1. unfold acc4 in E1. fold X in E1. clearbody X.
+    apply (f_equal intt_pure) in E1.
+    rewrite !intt_pure_re_add in E1 by len64.
+    rewrite intt_pure_re_zero in E1.
+    unfold ta0, ta1, ta2, ta3, tb0, tb1, tb2, tb3, tc0, tc1, tc2, tc3, td0, td1, td2, td3, tm in E1.
+    rewrite !intt_had in E1 by assumption.
+    rewrite (intt_ntt_pure (embed_msg payload) Rm) in E1.
+    apply solve_add in E1; [| apply ring_elem_intt_pure; exact LX | len64 | len64 | len64].
+    rewrite E1. unfold kem_noise, dot4. cbn [seq fold_left nth]. reflexivity.
+  Qed.
+
+  Lemma length_kem_noise a b c d :
+    module_elem 4 a -> module_elem 4 b -> module_elem 4 c -> module_elem 4 d -> length (kem_noise a b c d) = 64%nat.
+  Proof.
+    intros Wa Wb Wc Wd.
+    destruct (module4_explicit a Wa) as (a0 & a1 & a2 & a3 & -> & Ra0 & Ra1 & Ra2 & Ra3).
+    destruct (module4_explicit b Wb) as (b0 & b1 & b2 & b3 & -> & Rb0 & Rb1 & Rb2 & Rb3).
+    destruct (module4_explicit c Wc) as (c0 & c1 & c2 & c3 & -> & Rc0 & Rc1 & Rc2 & Rc3).
+    destruct (module4_explicit d Wd) as (d0 & d1 & d2 & d3 & -> & Rd0 & Rd1 & Rd2 & Rd3).
+    unfold kem_noise, dot4. cbn [seq fold_left nth]. len64.
+  Qed.
+
+  Variable sha3_256 : list Z -> list Z.
+
+  (* dec (enc ..) = Some key, CONDITIONAL on the lane-noise bound: the noise term  b.c - d.a  of the two pairs of
+     short secret vectors (key-generation side a, c; encapsulation side b, d) is lane-wise at most 2^14 - 3 *)
+  Theorem dec_enc_noise_partial kg_randomness enc_randomness sk pk k ct :
+    keygen shake256 kg_randomness = Some (sk, pk) ->
+    enc shake256 sha3_256 pk enc_randomness = Some (k, ct) ->
+    let payload := shake256 enc_randomness ENC_OUTPUT_LENGTH in
+    length payload = 32%nat -> Forall byte payload ->
+    (forall a c b d,
+       derive_secret_vectors shake256 (fst sk) = Some (a, c) ->
+       derive_secret_vectors shake256 payload = Some (b, d) ->
+       Forall (lane_noise NOISE_BOUND) (kem_noise a b c d)) ->
+    dec shake256 sha3_256 sk ct = Some (Some k).
+  Proof.
+    intros Hk He payload Lp Bp Hn.
+    apply (dec_enc_partial shake256 sha3_256 kg_randomness enc_randomness sk pk k ct Hk He).
+    fold payload.
+    unfold keygen in Hk.
+    destruct (derive_public_key shake256 _ _) as [pk'|] eqn:Hpk; [|discriminate].
+    inversion Hk; subst sk pk'. clear Hk. cbn [fst] in Hn.
+    set (key := shake256 (kg_randomness ++ [KEYGEN_KEY_TAG]) KEYGEN_OUTPUT_LENGTH) in *.
+    set (seed := shake256 (kg_randomness ++ [KEYGEN_SEED_TAG]) KEYGEN_OUTPUT_LENGTH) in *.
+    unfold enc in He. fold payload in He.
+    destruct (generate_ciphertext_derandomized shake256 pk payload) as [ct'|] eqn:Hct; [|discriminate].
+    inversion He; subst ct' k. clear He.
+    assert (Hac : exists a c, derive_secret_vectors shake256 key = Some (a, c)).
+    { unfold derive_public_key in Hpk. destruct (derive_secret_vectors shake256 key) as [[a c]|]; [|discriminate].
+      exists a, c. reflexivity. }
+    destruct Hac as (a & c & Hac).
+    assert (Hbd : exists b d, derive_secret_vectors shake256 payload = Some (b, d)).
+    { unfold generate_ciphertext_derandomized in Hct.
+      destruct (derive_secret_vectors shake256 payload) as [[b d]|]; [|discriminate]. exists b, d. reflexivity. }
+    destruct Hbd as (b & d & Hbd).
+    rewrite (dec_payload_noise key seed payload a c b d pk ct Hac Hbd Hpk Hct Lp).
+    destruct (dsv_wf _ _ _ Hac) as [Wa Wc]. destruct (dsv_wf _ _ _ Hbd) as [Wb Wd].
+    apply embed_extract.
+    - exact Bp.
+    - rewrite (length_kem_noise a b c d Wa Wb Wc Wd), Lp. reflexivity.
+    - exact (Hn a c b d Hac Hbd).
+  Qed.
+End Noise.
+
+(* a decidable version of the lane-noise predicate: balanced base-2^16 digits of the centred representative *)
+Definition cmod16 (s : Z) : Z := (s + 32768) mod 65536 - 32768.
+Definition lane_digits (e : Z) : Z * Z * Z * Z :=
+  let s := if e <=? (P - 1) / 2 then e else e - P in
+  let d0 := cmod16 s in let s1 := (s - d0) / 65536 in
+  let d1 := cmod16 s1 in let s2 := (s1 - d1) / 65536 in
+  let d2 := cmod16 s2 in let d3 := (s2 - d2) / 65536 in
+  (d0, d1, d2, d3).
+Definition lane_noise_okb (B e : Z) : bool :=
+  let '(d0, d1, d2, d3) := lane_digits e in
+  (- B <=? d0) && (d0 <=? B) && (- B <=? d1) && (d1 <=? B) && (- B <=? d2) && (d2 <=? B) && (- B <=? d3) && (d3 <=? B)
+  && (e =? (d0 + d1 * 65536 + d2 * 4294967296 + d3 * 281474976710656) mod P).
+Lemma lane_noise_okb_sound B e : lane_noise_okb B e = true -> lane_noise B e.
+Proof.
+  unfold lane_noise_okb. destruct (lane_digits e) as [[[d0 d1] d2] d3]. intros H.
+  repeat (apply andb_prop in H; let H' := fresh "H" in destruct H as [H H']).
+  exists d0, d1, d2, d3.
+  repeat match goal with Hx : (_ <=? _) = true |- _ => apply Z.leb_le in Hx end.
+  match goal with Hx : (_ =? _) = true |- _ => apply Z.eqb_eq in Hx end.
+  repeat split; assumption.
+Qed.
